@@ -183,7 +183,7 @@ PROPS.update({
     ),
     'C18': dict(
         extra_modules=['GraphrsModel.Props.C18Model'],
-        gens=[('eig', 'small', 1500, 25000, 7), ('eig', 'small', 100, 2000, 16)],
+        gens=[('eig', 'small', 1500, 25000, 7), ('eig', 'small', 100, 2000, 16), ('eig', 'small', 60, 1000, 32)],
         spec_fields=[r'ok\.eig'], model_fields=[r'build', r'agree\.eig'],
         nontrivial=lambda req, I: I.get('eig:b', '').count('>') >= 2,
         hist=lambda req, I: graph_hist(req, I) + ['result.' + ('ok' if '>' in I.get('eig:b', '') or I.get('eig:b') == '.' else I.get('eig:b', '?')),
